@@ -66,6 +66,14 @@ def _insert_loop_specs(fn_text, loops, log, where):
             text = text[:open_pos + 1] + "\n" + spec["body_start"] + "\n" + text[open_pos + 1:]
         inv = spec.get("invariant", "")
         header = text[kw_pos:open_pos]
+        if spec.get("iter_name") and kw == "for":
+            # rule L1 (generic): name the loop's ghost iterator -- `for PAT in EXPR` -> `for PAT in NAME: EXPR`
+            m = re.match(r"for\s+(.+?)\s+in\s+(.+)$", header.strip(), flags=re.S)
+            if not m:
+                raise Unsupported("%s: loop #%d: cannot parse for-header %r" % (where, ordinal, header))
+            header = "for %s in %s: %s " % (m.group(1), spec["iter_name"], m.group(2).strip())
+            log.append({"rule": "L1", "site": "%s loop #%d" % (where, ordinal), "pattern": "for PAT in EXPR",
+                        "replacement": "for PAT in %s: EXPR" % spec["iter_name"], "count": 1})
         if spec.get("header"):
             pat, repl = spec["header"]
             new_header, n = re.subn(pat, repl, header)
